@@ -153,6 +153,28 @@ def mulHs (D : Data α) (mu : α) (dim1 : Nat) (x : Array α) : MErr (Array α) 
   let y := Vec.axpby coefP D.p 1 y
   pure (Vec.scale y mu)
 
+/-- the cone object's mutable data -/
+structure State (α : Type) where
+  D : Data α
+  mu : α
+  z : Array α
+
+/-- `GenPowerConeData::new`: all work vectors zero, `μ = 1` -/
+def State.init (dim1 dim2 : Nat) : State α :=
+  let zeros (n : Nat) : Array α := (List.replicate n (0 : α)).toArray
+  ⟨⟨zeros (dim1 + dim2), zeros (dim1 + dim2), zeros dim1, zeros dim2, zeros dim1, 0⟩, 1, zeros (dim1 + dim2)⟩
+
+/-- `update_scaling`: `ζ = Π(zᵢ/alᵢ)^{2alᵢ} - ‖w‖²` is tested first; when `!(ζ > 0)` the update
+is refused (`false`) and the state is left unchanged, otherwise gradient/Hessian data, `μ` and
+`z` are stored. -/
+def updateScaling (al : Array α) (st : State α) (z : Array α) (mu : α) : MErr (Bool × State α) := do
+  let (_, w) ← split z al.size
+  let ζ := phiDual al z - Vec.sumsq w
+  if !(0 < ζ) then pure (false, st)
+  else
+    let D ← updateDualGradH al z
+    pure (true, ⟨D, mu, z⟩)
+
 /-- `compute_barrier` (primal part first, as in the code) -/
 def computeBarrier (al : Array α) (ψ : α) (z s dz ds : Array α) (a : α) : MErr α := do
   let barrier : α := 0
